@@ -76,6 +76,9 @@ class AM:
         t = self._cache.get(template)
         if t is None:
             mod = ast.parse(template)
+            from .normalize import _n2, _n4
+            _n2(mod)
+            _n4(mod)
             if len(mod.body) == 1 and isinstance(mod.body[0], ast.Expr):
                 t = mod.body[0].value
             elif len(mod.body) == 1:
@@ -128,6 +131,16 @@ class AM:
             if type(t) is not type(a):
                 if isinstance(a, ast.Name) and isinstance(a.ctx, ast.Load) and a.id in self.single and isinstance(t, ast.expr):
                     return self._m(t, self.single[a.id], b)
+                return False
+            if isinstance(t, ast.Compare) and len(t.ops) == 1 and isinstance(t.ops[0], (ast.Eq, ast.NotEq)) and len(a.ops) == 1 and type(a.ops[0]) is type(t.ops[0]):
+                b1 = dict(b)
+                if self._m(t.left, a.left, b1) and self._m(t.comparators[0], a.comparators[0], b1):
+                    b.update(b1)
+                    return True
+                b2 = dict(b)
+                if self._m(t.left, a.comparators[0], b2) and self._m(t.comparators[0], a.left, b2):
+                    b.update(b2)
+                    return True
                 return False
             for f in t._fields:
                 if f in _SKIP_FIELDS:
